@@ -724,6 +724,7 @@ func runRecord(scen string, seed int64, mode string) ([]trace.Ev, runStat) {
 		})
 	}
 
+	r.dupStorm()
 	switch sc.name {
 	case "evalwindow":
 		if s != nil {
@@ -1281,4 +1282,83 @@ func (r *recorder) preludeRacedAdd(s *sched) {
 	r.bump("raced_adds")
 	r.smu.Unlock()
 	r.snapshotEvent("raced-add")
+}
+
+// dupStorm: the same tx is submitted by several goroutines at once (as when it arrives from several peers), released
+// together while another Add keeps txObjectMap's write lock: every submission has finished its lock-free prefix and waits
+// for the map. Exactly one of them may insert an object; quota and pending cost must count the tx once (the accounting
+// snapshot is recomputed from the pool content right after). Real goroutines in every mode: the blocking tracer is the gate.
+func (r *recorder) dupStorm() {
+	e := r.e
+	var rich []*acct
+	for _, a := range e.accts {
+		if !a.poor {
+			rich = append(rich, a)
+		}
+	}
+	const n = 6
+	base := e.best().Header.Number()
+	x := e.build(txParams{org: rich[0], dlg: rich[2], gas: 21000, coef: 51, ref: base, exp: 1000}, nil) // two quota slots, one cost
+	z := e.build(txParams{org: rich[1], gas: 21000, coef: 0, ref: base, exp: 1000}, nil)
+	r.addToUniverse(x, z)
+	var mu sync.Mutex
+	arrived := 0
+	allArrived := make(chan struct{})
+	goOn := make(chan struct{})     // releases the submitters from their pre.add site
+	holding := make(chan struct{})  // the blocker is inside its critical section
+	release := make(chan struct{})  // lets the blocker leave it
+	xh, zh := x.tx.Hash(), z.tx.Hash()
+	hold := func(ev txpool.VerifEvent) {
+		switch {
+		case ev.Kind == "pre.add" && ev.Hash == xh:
+			mu.Lock()
+			arrived++
+			if arrived == n {
+				close(allArrived)
+			}
+			mu.Unlock()
+			<-goOn
+		case ev.Kind == "add" && ev.Hash == zh && ev.Locked:
+			close(holding)
+			<-release
+		}
+	}
+	r.tr.hold.Store(&hold)
+	var wg sync.WaitGroup
+	for i := 0; i < n; i++ {
+		wg.Add(1)
+		go guard("duplicate submitter", func() {
+			defer wg.Done()
+			kind := []string{"remote", "local", "strict"}[i%3]
+			r.doAdd(80+i, kind, x)
+		})
+	}
+	wait := func(ch chan struct{}, what string) {
+		select {
+		case <-ch:
+		case <-time.After(hangTimeout):
+			hang(what)
+		}
+	}
+	wait(allArrived, "duplicate submitters reaching txObjectMap.Add")
+	wg.Add(1)
+	go guard("lock holder", func() {
+		defer wg.Done()
+		r.doAdd(79, "remote", z)
+	})
+	wait(holding, "the blocking Add entering its critical section")
+	close(goOn)                          // the submitters go for the map (its lock is held)
+	time.Sleep(3 * time.Millisecond)     // ... and queue up on it
+	close(release)
+	done := make(chan struct{})
+	go func() { wg.Wait(); close(done) }()
+	wait(done, "duplicate submissions returning")
+	r.tr.hold.Store(nil)
+	r.smu.Lock()
+	r.bump("dup_storms")
+	r.smu.Unlock()
+	r.snapshotEvent("dup-storm")
+	r.doRemove(78, x)
+	r.doRemove(78, z)
+	r.snapshotEvent("dup-storm-removed")
 }
